@@ -305,21 +305,24 @@ type VerifNodeConfig struct {
 
 // VerifNode is one real ConsensusState driven synchronously.
 type VerifNode struct {
-	Name    string
-	CS      *ConsensusState
-	Ticker  *VerifTicker
-	App     *VerifSimApp
-	Store   cstate.Store
-	EvPool  *evidence.Pool
-	Bus     *types.EventBus
-	Addr    common.Address
-	Signed  []VerifSignRecord
-	OnSign  func(n *VerifNode, rec VerifSignRecord)
-	OnOwn   func(n *VerifNode, msg Message) // called for each own message before it is handled
-	Steps   int
-	Failed  interface{} // recovered panic of the handler ("CONSENSUS FAILURE"): the node is halted
-	FailStk string
-	Killed  bool
+	Name   string
+	CS     *ConsensusState
+	Ticker *VerifTicker
+	App    *VerifSimApp
+	Store  cstate.Store
+	EvPool *evidence.Pool
+	Bus    *types.EventBus
+	Addr   common.Address
+	Signed []VerifSignRecord
+	OnSign func(n *VerifNode, rec VerifSignRecord)
+	OnOwn  func(n *VerifNode, msg Message) // called for each own message before it is handled
+	// OnOwnLogged is called after the own message went through the WAL discipline and right before
+	// handleMsg makes it part of the node's state (from where the reactor gossips it): "published".
+	OnOwnLogged func(n *VerifNode, msg Message)
+	Steps       int
+	Failed      interface{} // recovered panic of the handler ("CONSENSUS FAILURE"): the node is halted
+	FailStk     string
+	Killed      bool
 	// full-stack variant (zz_verif_fullnode.go)
 	Full       *VerifFullParts
 	CatchupErr error
@@ -442,6 +445,9 @@ func (n *VerifNode) drain() {
 			n.guard(func() {
 				if err := n.CS.wal.WriteSync(mi); err != nil {
 					panic(fmt.Sprintf("Failed to write %v msg to consensus wal due to %v", mi, err))
+				}
+				if n.OnOwnLogged != nil {
+					n.OnOwnLogged(n, mi.Msg)
 				}
 				n.CS.handleMsg(mi)
 			})
